@@ -98,7 +98,7 @@ impl Config {
         for i in (1..4).rev() {
             order.swap(i, rng.below(i + 1));
         }
-        let mut b = QRBuilder::new(self.input.clone());
+        let mut b = self.new_builder_with_carrier(&mut rng);
         // A quarter of the builders have been USED before: some of the options that are going to be set are first
         // set to other values, the builder is built (result discarded), and only then do the real values follow.
         // Options left automatic are never touched (the API cannot unset them), so the final state is exactly this
@@ -209,6 +209,51 @@ impl Config {
             }
         }
         b
+    }
+    /// `QRBuilder::new` takes `impl Into<Vec<u8>>`: the same bytes can arrive in a freshly cloned vector, in a vector
+    /// with spare capacity (reserved up front, grown by pushes, or left over after truncating a longer buffer), as a
+    /// borrowed slice, or - when they are UTF-8 - as a `String` / `&str`. "Same input" means same bytes: the carrier
+    /// and its allocation history are chosen here as a deterministic function of the configuration, so every check
+    /// sees all of them and the history monitor compares them with the plain clone of `builder_canonical`.
+    fn new_builder_with_carrier(&self, rng: &mut oracle::rng::Rng) -> QRBuilder {
+        const SPARE: [usize; 8] = [1, 7, 64, 4096, 7090, 8192, 23_649, 1 << 16];
+        match rng.below(8) {
+            0 | 1 => QRBuilder::new(self.input.clone()),
+            2 => {
+                let mut v = Vec::with_capacity(self.input.len() + SPARE[rng.below(SPARE.len())]);
+                v.extend_from_slice(&self.input);
+                QRBuilder::new(v)
+            }
+            3 => {
+                // grown one push at a time (amortised doubling leaves whatever capacity the allocator chose)
+                let mut v = Vec::new();
+                for &x in &self.input {
+                    v.push(x);
+                }
+                QRBuilder::new(v)
+            }
+            4 => {
+                // a recycled scratch buffer: it held something longer before
+                let extra = SPARE[rng.below(SPARE.len())];
+                let mut v: Vec<u8> = (0..self.input.len() + extra).map(|i| (i as u8) ^ 0xA5).collect();
+                v.clear();
+                v.extend_from_slice(&self.input);
+                QRBuilder::new(v)
+            }
+            5 => QRBuilder::new(&self.input[..]),
+            6 => match std::str::from_utf8(&self.input) {
+                Ok(s) => QRBuilder::new(s),
+                Err(_) => QRBuilder::new(self.input.clone().into_boxed_slice().into_vec()),
+            },
+            _ => match std::str::from_utf8(&self.input) {
+                Ok(s) => {
+                    let mut o = String::with_capacity(s.len() + SPARE[rng.below(SPARE.len())]);
+                    o.push_str(s);
+                    QRBuilder::new(o)
+                }
+                Err(_) => QRBuilder::new(&self.input[..]),
+            },
+        }
     }
     /// one call per option in a fixed order (reference of the history monitor)
     pub fn builder_canonical(&self) -> QRBuilder {
